@@ -856,6 +856,11 @@ class BaseWorkflow(object, metaclass=abc.ABCMeta):
             input_task_set = next_task_set
 
     def __set_lst_lft_criticalpath_data(self, time: int):
+        # 0. Forget the values of the previous call ("lft < 0" means "not set yet").
+        for task in self.task_list:
+            task.lst = -1.0
+            task.lft = -1.0
+
         # 1. Extract the list of tail tasks.
         output_task_set = list(
             filter(lambda task: len(task.output_task_list) == 0, self.task_list)
